@@ -507,6 +507,8 @@ EXTRA_DECLS = [
     ("atomic", "_Atomic int at1; _Atomic(int) at2; int * _Atomic at3; _Atomic(int *) at4;"),
     ("atomic-derived-multi", "_Atomic(int *) at5, at6, *at7; struct AT { _Atomic(int *) h, t; const _Atomic(char *) u, v[2]; } at8; typedef _Atomic(int (*)(void)) AF1, AF2; AF2 at9;"),
     ("atomic-derived-multi-quals", "const _Atomic(int *) at10 = 0, at11 = 0; _Atomic(const int *) at12, at13; int atf(void) { at12 = 0; at13 = 0; return sizeof(at11) + sizeof(at13); }"),
+    ("suffix-runs", "int cube[2][3][4]; int (*pcube)[2][3][4]; int (*ftab[2][3][4])(int); unsigned long zc1 = sizeof(cube), zc2 = sizeof(*pcube), zc3 = sizeof(ftab), zc4 = sizeof(int (*)[5][6][7]), zc5 = sizeof(cube[0]), zc6 = sizeof(cube[0][0]);"),
+    ("switch-items-before-first-case", "int sw1(int x) { switch (x) { int tmp; case 1: tmp = 1; x = tmp; break; default: tmp = 2; x = tmp + 1; } return x; } int sw2(int x) { switch (x) { again: case 0: x++; if (x < 3) goto again; break; case 7: x = 1; } return x; }"),
     ("const-ptr-chain", "const int * const * volatile cp1;"),
     ("extern-array", "extern int ea1[]; int ea1[5];"),
     ("kr-def", "int kr1(x, y) int x; char y; { return x + y; }"),
